@@ -7,6 +7,7 @@ here="$(cd "$(dirname "$0")/.." && pwd)"
 v="$1"; shift
 props="${*:-C01 C02 C03 C04 C05 C06 C07 C08 C09 C10 C11 C12 C13 C14 C15 C16 C17 C18 C19 C20}"
 export GOFLAGS=-mod=mod GOPROXY=off GOSUMDB=off GOTOOLCHAIN=local CGO_ENABLED=0; unset GOWORK
+export GOCACHE="${VERIF_SCRATCH_GOCACHE:-/tmp/verif-scratch-gocache}"   # scratch copies at ever new paths would bloat the shared cache
 scratch=$(mktemp -d /tmp/variant.XXXXXX)
 trap 'rm -rf "$scratch"' EXIT
 rsync -a --exclude .git /repo/ "$scratch/repo/"
